@@ -166,3 +166,30 @@ def template_letters(skel):
     """parameter letters of a synthesised command skeleton such as 'G0 F{} X{} Y{}'"""
     import re
     return re.findall(r'(?<![A-Za-z])([A-Za-z])\{', skel)
+
+
+def tracking_violations(f, gcode, I):
+    """[(function, construct, message)] when the tracked X/Y/Z does not follow the move on this path"""
+    out = []
+    if ('ExcludeRegionState', 'processLinearMoves') not in f.calls:
+        return out
+    for axis, letter in (('X_AXIS', 'X'), ('Y_AXIS', 'Y'), ('Z_AXIS', 'Z')):
+        aoid = '%s.position.%s' % (S_OID, axis)
+        assume = {('fld', aoid, 'absoluteMode'): frozenset([True])} if gcode in ('G2', 'G3') else None
+        for v in f.final(aoid, 'current', assume):
+            if not isinstance(v, Num):
+                out.append(('ExcludeRegionState.processLinearMoves', '%s %s non-numeric' % (gcode, axis),
+                            'tracked position is not a number: %r' % (v,)))
+                continue
+            syms = v.p.symbols()
+            deps = set(syms)
+            for s in syms:
+                deps |= I.symdeps(s)
+            if any('planArc' in s and '.ret[' in s for s in syms):
+                out.append(('ExcludeRegionState.isAnyPointExcluded', '%s %s left mid-arc' % (gcode, axis),
+                            'tracked %s ends at an intermediate arc sample, not at the endpoint' % letter))
+            if gcode in ('G0', 'G1') and f.valued(letter) and ('p:%s' % letter) not in deps:
+                out.append(('ExcludeRegionState.processLinearMoves', '%s %s word not tracked' % (gcode, letter),
+                            'the move carries a %s word but the tracked position does not follow it (enabled=%s, excluded=%s)'
+                            % (letter, f.pre_enabled, f.any_excluded)))
+    return out
